@@ -13,7 +13,15 @@ pub struct VariableUse {
 
 impl VariableUse {
     pub fn new(meta: &Meta, name: &VariableName, access: &[AccessType]) -> VariableUse {
-        VariableUse { meta: meta.clone(), name: name.clone(), access: access.to_owned() }
+        // A use records where (and what) the node is. Copying the variable uses
+        // cached on the node so far into each new use would nest them, and the
+        // size of a node that is updated repeatedly (e.g. a phi statement which
+        // gains one argument per predecessor) would grow factorially.
+        VariableUse {
+            meta: meta.without_variable_knowledge(),
+            name: name.clone(),
+            access: access.to_owned(),
+        }
     }
 
     pub fn meta(&self) -> &Meta {
